@@ -61,6 +61,14 @@ CHECKS = {
    technique="stateful property-based testing (rapid) over two aliased values: snapshot-unchanged invariant for the untouched side and isolated-twin equivalence for the operated side",
    text="Resolve and Clone scenarios with lazily created state present or absent, then operations on either side; the other side's full snapshot must not change and the operated side must equal an isolated twin with the same history.",
    ref="DESIGN.md §6 C13", note="trusted base: snapshot and twin construction in harness/props/c13.go, rapid"),
+ "C15": dict(
+   technique="property-based metamorphic testing (rapid): one (input, base) pair parsed under the four diagnostic configurations, relations between the runs; error classification against the documented type table and the reference model's failure state",
+   text="Inputs biased to produce validation errors are parsed with the default, reporting, fail-on-validation-error and combined parsers; the relations of the statement (reporting is observation only; fail mode is a restriction returning the same URL; without a base it accepts exactly what reporting records nothing for; error types documented and failure marks right; missing-scheme classification) are evaluated on every case.",
+   ref="DESIGN.md §6 C15, §7.3", note="trusted base: relations in harness/props/c15.go; reference model only for the missing-scheme clause"),
+ "C16": dict(
+   technique="property-based testing (rapid) over generated option sets and inputs with one sub-oracle per clause: differential against the reference model + setters (remove-*), list-model (sort), failure-state oracle (default-scheme), metamorphic neutrality (conservative extensions, alone and combined), effect oracles (collapse, replaced sets, skip-equals, added scheme)",
+   text="Each case draws a clause of the statement with its option set and input. Neutrality: for 1..4 of 14 parser options with generated encode sets / added schemes, if no option's trigger occurs in the input text the result must equal the default parser's (through url.NewParser and canonicalizer.New). Effects are checked against explicit oracles per clause.",
+   ref="DESIGN.md §6 C16", note=MODEL),
 }
 
 NOT_YET = {}
